@@ -41,7 +41,7 @@ OTHER_WRITERS = {
     "os.link",
     "os.symlink",
 }
-OTHER_WRITER_ATTRS = {"write_text", "write_bytes", "truncate"}
+OTHER_WRITER_ATTRS = {"write_text", "write_bytes", "truncate", "move", "copyfile", "copy2", "rename"}
 
 
 def _mkstemp_unpack(defs, name):
